@@ -22,7 +22,7 @@ RULE = (
     'unchanged, or clamped into [0,len], or land beyond the end like a plain file; the reference is re-synchronised to '
     'tell() and every later read must return exactly content[p:p+n] (never bytes outside the object). Plus exhaustive '
     'enumeration of all programs of length <= 2 (quick) / <= 3 (thorough) over a 34-step alphabet on a 5-byte object for '
-    'every form, and of all in-range programs of length <= 2 / <= 3 over a 10-step alphabet of large reads and rewinds on a '
+    'every form, and of all in-range programs of length <= 2 / <= 3 over an 11-step alphabet of large reads, one-byte reads and rewinds on a '
     '1.25 MiB incompressible object (compressed form spans several 512 KiB decompresser chunks). Non-trivial = program with a backward or end-relative seek followed by a read on a packed form; distinct '
     'by (form, access, program, size class).'
 )
@@ -63,6 +63,9 @@ def strategy():
             'form': st.sampled_from(FORMS),
             'access': st.sampled_from(ACCESS),
             'program': st.lists(step_strategy(), min_size=1, max_size=25),
+            # internal read-chunk size of the decompresser (a tuning constant: behaviour must not depend on it); lowering it makes
+            # chunk-alignment situations reachable that need MiB-sized, poorly compressible objects at the production value
+            'dchunk': st.sampled_from([None, None, None, 1, 3, 16, 64, 1000]),
         }
     )
 
@@ -200,12 +203,18 @@ def run_access(cont, key, data, others, access, program, concrete=False):
 
 
 def run_case(case):
+    from disk_objectstore import utils
+
     root = new_dir('c07')
     cont = None
+    saved_chunk = utils.ZlibLikeBaseStreamDecompresser._CHUNKSIZE  # pylint: disable=protected-access
     try:
         cont, key, data, others = build(root, case['cfg'], case['before'], case['target'], case['after'], case['form'])
+        if case.get('dchunk'):
+            utils.ZlibLikeBaseStreamDecompresser._CHUNKSIZE = case['dchunk']  # pylint: disable=protected-access
         info = run_access(cont, key, data, others, case['access'], case['program'])
     finally:
+        utils.ZlibLikeBaseStreamDecompresser._CHUNKSIZE = saved_chunk  # pylint: disable=protected-access
         if cont is not None:
             cont.close()
         rm_dir(root)
@@ -214,6 +223,8 @@ def run_case(case):
     size = len(data)
     sizeclass = 'empty' if size == 0 else 'tiny' if size < 8 else 'small' if size < 65536 else 'multi-chunk' if size < 524288 else 'over-512K'
     labels = [f'form:{case["form"]}', f'access:{case["access"]}', f'size:{sizeclass}']
+    if case.get('dchunk'):
+        labels.append('lowered-decompresser-chunk')
     if info['out_of_range']:
         labels.append('has-out-of-range-seek')
     if info['rejected']:
@@ -278,7 +289,7 @@ def exhaustive(ctx, length):
 
 
 BOUNDARY_ALPHABET = (
-    ('read', 700000), ('read', 524288), ('read', 100), ('readall', 0), ('tell', 0),
+    ('read', 700000), ('read', 524288), ('read', 100), ('read', 1), ('readall', 0), ('tell', 0),
     ('seek', 0, 0), ('seek', 100, 0), ('seek', 600000, 0), ('seek', -50, 1), ('seek', -10, 2),
 )
 
